@@ -150,6 +150,22 @@ def check_predictor(res, case, p, entries, sub0, tag):
                 res.violation(f"{tag}|call type", f"{type(ph).__name__} [{sub}]", case, sub)
                 continue
             compare(phase_exact_of(ph)[0], me, "scalar prediction", sub)
+            # the same instant given on another time scale / in another format must give the same prediction
+            if k == 0 or len(allpts) % 5 == 0:
+                for nm, tt in (("tai", t.tai), ("tt", t.tt), ("utc iso", Time(t.utc.isot, format="isot", scale="utc", precision=9))):
+                    try:
+                        ph2 = p(tt)
+                    except Exception as ex:
+                        res.violation(f"{tag}|time scale {nm} raised", f"{type(ex).__name__}: {ex} [{sub}]", case, dict(sub, scale=nm))
+                        continue
+                    res.transitions += 1
+                    me2 = me if nm != "utc iso" else exact_mjd(tt)
+                    wants2, _ = expect(me2)
+                    if wants2 and min(abs(phase_exact_of(ph2)[0] - w) for w in wants2) > tol + f0 * F(2, 10 ** 9):
+                        res.violation(f"{tag}|time scale", f"the instant MJD {float(me)!r} given in scale/format {nm} predicts "
+                                      f"{float(phase_exact_of(ph2)[0])!r}, in UTC {float(phase_exact_of(ph)[0])!r} [{sub}]", case,
+                                      dict(sub, scale=nm))
+                res.hits["other time scales"] += 1
             # frequency and derivatives
             for n in (0, 1, 2):
                 try:
@@ -396,7 +412,7 @@ def main(argv=None):
         PID, gen_cases=gen_cases, check_case=check_case, describe=describe,
         required_hits=["spans merged", "several disjoint intervals", "unsorted array across entries", "outside rejected",
                        "phasepol", "history: predictions re-checked after phasepol", "time_at", "row subsets",
-                       "coefficient count not a multiple of three", "D exponents", "shipped file", "mixed entries rejected"],
+                       "coefficient count not a multiple of three", "D exponents", "shipped file", "mixed entries rejected", "other time scales"],
         assumptions=["decimal strings of the text are the exact inputs; time is the exact (jd1, jd2) of the Time object; budget "
                      "1e-8 cycle + F0*86400*2^-51", "times inside a < 1 ms gap between spans and exactly on a span end are "
                      "unconstrained (grid uses ends +-1 us)", "time_at is exercised only where the prediction is continuous"],
